@@ -384,7 +384,27 @@ func (e *Env) evalCallWith(call *ast.CallExpr, st *State, args []Value) Value {
 		if ord, ok := e.C.callOrd[call.Lparen]; ok && e.C.Contract != nil && len(e.C.Contract.Ats) > 0 {
 			saved := e.C.specAt
 			e.C.specAt = call.Pos()
-			e.C.runAts(e, st, "before call "+ord, nil)
+			// the arguments of the call are visible as arg0, arg1, ...
+			extra := map[string]TV{}
+			for i, a := range args {
+				if i < len(call.Args) {
+					if t := e.Info.TypeOf(call.Args[i]); t != nil && a != nil {
+						extra[fmt.Sprintf("arg%d", i)] = TV{a, t}
+					}
+				}
+			}
+			// ... and the receiver of a method call as recv
+			if sel, ok := stripParens(call.Fun).(*ast.SelectorExpr); ok {
+				if s := e.Info.Selections[sel]; s != nil && s.Kind() == types.MethodVal {
+					if rt := e.Info.TypeOf(sel.X); rt != nil {
+						tmp := st.clone()
+						if rv := e.eval(sel.X, tmp); rv != nil {
+							extra["recv"] = TV{rv, rt}
+						}
+					}
+				}
+			}
+			e.C.runAts(e, st, "before call "+ord, extra)
 			e.C.specAt = saved
 		}
 	}
